@@ -504,3 +504,112 @@ def _some_promise(paths, pr):
             terms.append(z3.And(*p.pc[:3]))
     # simpler: the discriminant symbol
     return z3.Or(terms) if terms else z3.BoolVal(False)
+
+
+# ================================================================================================ C16 / C07 / C12 integer guards
+def c16_guards(ctx):
+    try:
+        _c16_guards(ctx)
+    except lib.Inconclusive as e:
+        ctx.inconclusive.append('Engine M: %s' % e)
+
+
+def _c16_guards(ctx):
+    m = M(ctx)
+    U = lambda x: z3.ZeroExt(64, x)
+    MAXU = z3.ZeroExt(64, z3.BitVecVal(-1, 64))
+    # ---- (a) verify: round-count region
+    f = m.fn(r'range_proof\.rs.*>::verify$')
+    a = m.anchor(f, r'"Vector L/R length not adequate"', 'round count message')
+    start = f.walk_back(a, r'<u32 as TryFrom<usize>>::try_from\(')
+    sw = [b for b in f.preds.get(a, ()) if 'switchInt' in f.blocks[b][1]]
+    if start is None or len(sw) != 1:
+        raise lib.Inconclusive('round-count region anchors')
+    okb = re.search(r'\[0: (bb\d+)', f.blocks[sw[0]][1]).group(1)
+    ev = Evaluator(f)
+    paths = ev.run(start=start, stops=(okb,))
+    m.note_region(f, 'round-count check (u32::try_from, leading_zeros, checked_shl, comparison with full_length)', sorted(set(sum([p.trace for p in paths], []))))
+    us = [v for k, v in ev.sym_decl.items() if isinstance(v, BV) and v.ty == 'usize' and re.match(r'_\d+@0$', k[0])]
+    if len(us) != 2:
+        raise lib.Inconclusive('round-count region: expected rounds and full_length symbols, got %s' % [k for k in ev.sym_decl])
+    # rounds is the argument of try_from: the symbol that appears in the first path condition
+    tf = re.search(r'try_from\(copy (_\d+)\)', f.blocks[start][1]).group(1)
+    rounds = ev.sym(tf + '@0', 'usize').e
+    full = [v.e for v in us if str(v.e) != str(rounds)][0]
+    reach = [z3.And(*p.pc) for p in paths if p.end == ('stop', okb)]
+    errs = [p for p in paths if p.end[0] == 'return']
+    for p in errs:
+        r = p.env.get('_0')
+        if not (isinstance(r, Res) and z3.is_false(r.ok)):
+            raise lib.Inconclusive('round-count region: a returning path is not an Err')
+    spec = z3.Or([z3.And(rounds == k, full == z3.BitVecVal(1 << k, 64)) for k in range(64)])
+    m.oblige('verify continues past the round-count check iff 2^rounds == full_length (every usize rounds incl. huge values, every usize full_length)', [z3.Or(reach) != spec],
+             key='C16:round-count', pred=None)
+    m.oblige('round-count check: paths exhaustive (continue or Err, nothing else)', [z3.Not(pc_union(paths))], key='C16:round-count')
+    m.no_overflow(paths, 'round-count check', 'C16:round-count')
+    # ---- (b) compute_generator_padding, whole function, integer encoding (64-bit products stall a bit-blasting back end)
+    f = m.fn(r'^compute_generator_padding$')
+    ev = Evaluator(f, int_mode=True)
+    paths = ev.run()
+    m.note_region(f, 'whole function (mathematical integers with usize range constraints; only checked arithmetic occurs)', sorted(f.blocks))
+    n, mm, c = [ev.sym('_%d@0' % i, 'usize').e for i in (1, 2, 3)]
+    MAXI = (1 << 64) - 1
+    spec_ok = z3.And(2 * n <= MAXI, 2 * n * c <= MAXI, 2 * n * mm <= MAXI, 2 * n * c - 2 * n * mm >= 0)
+    bad = []
+    for p in paths:
+        r = p.env['_0']
+        pc = z3.And(*p.pc) if p.pc else z3.BoolVal(True)
+        val_bad = z3.BoolVal(False)
+        if r.okv is not None and isinstance(r.okv, mirx.IV):
+            val_bad = z3.And(r.ok, r.okv.e != 2 * n * c - 2 * n * mm)
+        bad.append(z3.And(pc, z3.Or(r.ok != spec_ok, val_bad)))
+    m.oblige('compute_generator_padding == Ok(2n(c-m)) iff no overflow and c >= m, Err otherwise (all usize triples)', ev.domain + [z3.Or(bad)], key='C16:padding', pred=None)
+    m.oblige('compute_generator_padding: paths exhaustive', ev.domain + [z3.Not(pc_union(paths))], key='C16:padding')
+    # ---- (c) AggregatedGensIter::next / size_hint: no overflow, next returns None once party_idx >= m
+    f = m.fn(r'aggregated_gens_iter\.rs.*>::next$')
+    ev = Evaluator(f)
+    paths = ev.run()
+    m.note_region(f, 'whole function', sorted(f.blocks))
+    m.no_overflow(paths, 'AggregatedGensIter::next', 'C16:gens-iter')
+    m.ctx.expect(all(p.end[0] == 'return' for p in paths) and len(paths) >= 3, 'C16:gens-iter', 'AggregatedGensIter::next: unexpected path shapes', None, None)
+    f = m.fn(r'aggregated_gens_iter\.rs.*>::size_hint$')
+    ev = Evaluator(f)
+    paths = ev.run()
+    m.note_region(f, 'whole function', sorted(f.blocks))
+    m.no_overflow(paths, 'AggregatedGensIter::size_hint', 'C16:gens-iter')
+    # ---- (d) encode_usize: Err iff the index does not fit in 32 bits
+    f = m.fn(r'^encode_usize$')
+    ev = Evaluator(f)
+    paths = ev.run()
+    m.note_region(f, 'whole function', sorted(f.blocks))
+    x = ev.sym('_1@0', 'usize').e
+    bad = []
+    for p in paths:
+        r = p.env['_0']
+        pc = z3.And(*p.pc) if p.pc else z3.BoolVal(True)
+        if not isinstance(r, Res):
+            raise lib.Inconclusive('encode_usize: opaque result')
+        bad.append(z3.And(pc, r.ok != z3.ULE(x, z3.BitVecVal((1 << 32) - 1, 64))))
+    m.oblige('encode_usize == Ok iff index <= u32::MAX (all usize)', [z3.Or(bad)], key='C16:encode-usize', pred=None)
+    # ---- (e) the verifier's promise guard (consistency function): Err iff bit_length < 64 and promise >= 2^bit_length
+    f = m.fn(r'range_proof\.rs.*>::verify_statements_and_generators_consistency$')
+    a = m.anchor(f, r'"Minimum value promise exceeds bit vector capacity"', 'promise guard message')
+    head = f.walk_back(a, r'as Iterator>::next\(')
+    ev = Evaluator(f)
+    lp = ev.run(start=head, stops=(m.loop_exit(f, head),))
+    m.note_region(f, 'promise guard loop body (inner loop over Some promises)', sorted(set(sum([p.trace for p in lp], []))))
+    u64s = [v for k, v in ev.sym_decl.items() if isinstance(v, BV) and v.ty == 'u64']
+    ns = [v for k, v in ev.sym_decl.items() if isinstance(v, BV) and v.ty == 'usize' and re.match(r'_\d+@0$', k[0])]
+    if len(u64s) != 1 or len(ns) != 1:
+        raise lib.Inconclusive('verifier promise guard: symbols %s' % [k for k in ev.sym_decl])
+    pv, n = u64s[0].e, ns[0].e
+    some = [o['some'] for p in lp for o in p.obs if o['kind'] == 'next']
+    err = [z3.And(*p.pc) for p in lp if p.end[0] == 'return' and isinstance(p.env.get('_0'), Res) and z3.is_false(p.env['_0'].ok)]
+    spec_err = z3.Or([z3.And(n == k, z3.UGE(pv, z3.BitVecVal(1 << k, 64))) for k in range(64)])
+    valid_n = z3.Or([n == k for k in (1, 2, 4, 8, 16, 32, 64)])
+    m.oblige('verifier promise guard: Err iff promise >= 2^bit_length, for all u64 promises and every constructible bit length', [valid_n, some[0], z3.Or(err) != spec_err],
+             key='C07:promise-guard', pred=None)
+    m.no_overflow(lp, 'verifier promise guard', 'C07:promise-guard')
+    ctx.extra.setdefault('engine_m', {})['regions'] = m.regions
+    ctx.extra['engine_m']['mir_dump_s'] = round(_cache.get('dump_s', 0), 1)
+    ctx.functions |= {r['function'] for r in m.regions}
